@@ -147,3 +147,103 @@ that the obligation reads `denote prog_X = refCodec ty_X`) -/
 def denote (g : GenCodec) : Option GenCodec := some g
 
 end Sky.Codec
+
+/-! ## operational semantics of the extracted programs
+
+Values are placed by the schema (Go's type checker guarantees `obj.f = i` is well typed and codecgen checks
+that the blocks address the fields in declaration order); every guard, constant, flag and the order of
+the checks come from the PROGRAM.  Outcomes: normal, returned error, run-time panic (a slice expression
+or an allocation that the program did not guard), or `unsupported` (a program shape outside the fragment,
+e.g. an early `return` that is not the last block). -/
+namespace Sky.Codec
+
+inductive PRes (ε α : Type) where
+  | ok (a : α)
+  | err (e : ε)
+  | panic (why : String)
+  | unsupported
+deriving Repr
+
+/-- `for z := range obj.f { body }` -/
+def runLoop {ε α} (f : Bytes → PRes ε (α × Bytes)) : Nat → Bytes → List α → PRes ε (List α × Bytes)
+  | 0, bs, acc => .ok (acc.reverse, bs)
+  | n+1, bs, acc =>
+    match f bs with
+    | .ok (x, r) => runLoop f n r (x :: acc)
+    | .err e => .err e
+    | .panic w => .panic w
+    | .unsupported => .unsupported
+
+def liftD {α} (k : DProg) : DRes α → PRes DecErr (α × Bytes × DProg)
+  | .ok v r => .ok (v, r, k)
+  | .err e _ => .err e
+
+/-- the shared head of the two length-prefixed blocks: returns `(length, buffer after the prefix)`;
+`none` = the early `return consumed, nil` of an omitempty field was taken. -/
+def runLenHead (eof uchk : Bool) (max : Nat) (k : DProg) (bs : Bytes) : PRes DecErr (Option (Nat × Bytes)) :=
+  if eof && bs.isEmpty then (if k = .done then .ok none else .unsupported) else
+  match readLE 4 bs with
+  | .err e _ => .err e
+  | .ok len r =>
+    if uchk && decide (len > r.length) then .err .underflow
+    else if max > 0 ∧ len > max then .err .maxlen
+    else .ok (some (len, r))
+
+/-- generated `decodeX` (body between the prologue and the final `return consumed, nil`). Returns the
+value, the unread buffer and the blocks not yet executed. -/
+def runDec : (t : Ty) → DProg → Bytes → PRes DecErr (Val t × Bytes × DProg)
+  | .u8, .prim .u8 k, bs => liftD k (dec .u8 bs)
+  | .u16, .prim .u16 k, bs => liftD k (dec .u16 bs)
+  | .u32, .prim .u32 k, bs => liftD k (dec .u32 bs)
+  | .u64, .prim .u64 k, bs => liftD k (dec .u64 bs)
+  | .i8, .prim .i8 k, bs => liftD k (dec .i8 bs)
+  | .i16, .prim .i16 k, bs => liftD k (dec .i16 bs)
+  | .i32, .prim .i32 k, bs => liftD k (dec .i32 bs)
+  | .i64, .prim .i64 k, bs => liftD k (dec .i64 bs)
+  | .bool, .prim .bool k, bs => liftD k (dec .bool bs)
+  | .bytesN _, .copyN g n k, bs =>
+    -- [if len(d.Buffer) < g { underflow }]; copy(obj.f[:], d.Buffer[:n]); d.Buffer = d.Buffer[n:]
+    if (match g with | some gd => decide (bs.length < gd) | none => false) then .err .underflow
+    else if bs.length < n then .panic "slice bounds out of range"
+    else .ok (bs.take n, bs.drop n, k)
+  | .bytes _, .lenBytes eof uchk max k, bs =>
+    match runLenHead eof uchk max k bs with
+    | .err e => .err e | .panic w => .panic w | .unsupported => .unsupported
+    | .ok none => .ok ([], [], .done)
+    | .ok (some (len, r)) =>
+      if len = 0 then .ok ([], r, k)
+      else if r.length < len then .panic "slice bounds out of range"
+      else .ok (r.take len, r.drop len, k)
+  | .slice _ t, .lenLoop eof uchk max body k, bs =>
+    match runLenHead eof uchk max k bs with
+    | .err e => .err e | .panic w => .panic w | .unsupported => .unsupported
+    | .ok none => .ok ([], [], .done)
+    | .ok (some (len, r)) =>
+      if len = 0 then .ok ([], r, k)
+      else if r.length < len then .panic "make([]T, length) with an unchecked attacker-chosen length"
+      else
+        match runLoop (fun b => match runDec t body b with
+            | .ok (x, r', .done) => .ok (x, r')
+            | .ok _ => .unsupported
+            | .err e => .err e | .panic w => .panic w | .unsupported => .unsupported) len r [] with
+        | .ok (xs, r') => .ok (xs, r', k)
+        | .err e => .err e | .panic w => .panic w | .unsupported => .unsupported
+  | .unit, p, bs => .ok ((), bs, p)
+  | .pair a b, p, bs =>
+    match runDec a p bs with
+    | .err e => .err e | .panic w => .panic w | .unsupported => .unsupported
+    | .ok (x, r, p') =>
+      match runDec b p' r with
+      | .err e => .err e | .panic w => .panic w | .unsupported => .unsupported
+      | .ok (y, r', p'') => .ok ((x, y), r', p'')
+  | .omitempty t, p, bs => runDec t p bs
+  | _, _, _ => .unsupported
+
+/-- whole generated `decodeX`: all blocks must be used up -/
+def runDecode (t : Ty) (p : DProg) (bs : Bytes) : PRes DecErr (Val t × Bytes) :=
+  match runDec t p bs with
+  | .ok (v, r, .done) => .ok (v, r)
+  | .ok _ => .unsupported
+  | .err e => .err e | .panic w => .panic w | .unsupported => .unsupported
+
+end Sky.Codec
